@@ -735,12 +735,27 @@ def m_ge(I, args, fn, expr):
     return _cmp(I, "Ge", args)
 
 
+def _ordering_of(I, fn, a, b):
+    """Ordering of two values through the type's own (local) Ord / PartialOrd impl when there is one."""
+    hit = I.local_callee_via(fn, ("cmp", "partial_cmp"))
+    if hit is not None:
+        item, inst = hit
+        r = strip(I.call_item(item, [Ref(Place(Cell(a))), Ref(Place(Cell(b)))], inst=inst))
+        if isinstance(r, Adt) and r.variant == "Some":
+            r = strip(r.fields["0"])
+        if isinstance(r, Adt) and r.path == "std::cmp::Ordering":
+            return r.variant
+        raise Abort("comparison through a local Ord impl gave %r" % (r,))
+    return strip(_ordering(I, a, b)).variant
+
+
 @model("std::cmp::min", "std::cmp::Ord::min")
 def m_min(I, args, fn, expr):
     a, b = strip(args[0]), strip(args[1])
     if isinstance(a, int) and isinstance(b, int):
         return min(a, b)
-    return a if binop(I, "Le", a, b) else b
+    # std: min returns the first argument when equal
+    return b if _ordering_of(I, fn, a, b) == "Greater" else a
 
 
 @model("std::cmp::max", "std::cmp::Ord::max")
@@ -748,7 +763,8 @@ def m_max(I, args, fn, expr):
     a, b = strip(args[0]), strip(args[1])
     if isinstance(a, int) and isinstance(b, int):
         return max(a, b)
-    return b if binop(I, "Le", a, b) else a
+    # std: max returns the second argument when equal
+    return a if _ordering_of(I, fn, a, b) == "Greater" else b
 
 
 # ---------------------------------------------------------------------------------------------------
